@@ -315,3 +315,216 @@ Proof.
   intros rv [[|a l]|]; unfold merge_attributes; simpl; try reflexivity.
   f_equal. apply (merge_refines_spec rv (a :: l)).
 Qed.
+
+(* ================================================================== attribute output *)
+(* what push_attribute writes for one attribute *)
+Inductive attr_form :=
+| AF_none                                                   (* nothing *)
+| AF_bare (name : str)                                      (* ` name` *)
+| AF_empty (name lq rq : str)                               (* ` name` then `=` lq rq in one push *)
+| AF_value (name lq : str) (v : list vtok) (rq : str).      (* ` name`, `=` lq, the value tokens, rq *)
+
+Definition write_form (c : oconfig) (f : attr_form) (st : fstate) : fstate :=
+  match f with
+  | AF_none => st
+  | AF_bare n => push_str c (c_space :: n) st
+  | AF_empty n lq rq => push_str c (c_eq :: lq ++ rq) (push_str c (c_space :: n) st)
+  | AF_value n lq v rq => push_str c rq (push_tokens c v (push_str c (c_eq :: lq) (push_str c (c_space :: n) st)))
+  end.
+
+(* name written for an attribute called [nm0]: markup.attributes (the `name*` entry first when the
+   shorthand was doubled), then output.attributeCase *)
+Definition out_name (c : oconfig) (nm0 : str) (multiple : bool) : str :=
+  attr_name c (match oc_markup_attributes c with
+               | Some ((_ :: _) as tbl) =>
+                   match get_multi_value nm0 tbl multiple with
+                   | Some ((_ :: _) as m) => m
+                   | _ => nm0
+                   end
+               | _ => nm0
+               end).
+
+(* the configured quote, braces for expressions *)
+Definition quote_of (c : oconfig) (a : aattr) : str * str :=
+  match aa_vtype a with
+  | VExpr => ([c_lbrace], [c_rbrace])
+  | _ => let q := if str_eqb (oc_attr_quotes c) s_single then c_squote else c_dquote in ([q], [q])
+  end.
+
+(* markup.valuePrefix: a single string value becomes prefix.value / prefix['value'], in braces under jsx *)
+Definition prefixed (c : oconfig) (a : aattr) (nm0 : str) : option (list vtok * (str * str)) :=
+  match oc_value_prefix c with
+  | Some ((_ :: _) as tbl) =>
+      match get_multi_value nm0 tbl (aa_multiple a), aa_value a with
+      | Some ((_ :: _) as pf), Some [VStr val] =>
+          Some ([VStr (if is_prop_key val then pf ++ [c_dot] ++ val
+                       else pf ++ [c_lbrack; c_squote] ++ val ++ [c_squote; c_rbrack])],
+                if oc_jsx c then ([c_lbrace], [c_rbrace]) else quote_of c a)
+      | _, _ => None
+      end
+  | _ => None
+  end.
+
+(* THE DECISION TABLE *)
+Definition attr_out_spec (c : oconfig) (a : aattr) : attr_form :=
+  match aa_name a with
+  | Some ((_ :: _) as nm0) =>
+      let name := out_name c nm0 (aa_multiple a) in
+      let '(value, (lq, rq)) := match prefixed c a nm0 with
+                                | Some r => r
+                                | None => (match aa_value a with Some v => v | None => [] end, quote_of c a)
+                                end in
+      match value with
+      | _ :: _ => AF_value name lq value rq                      (* a value: verbatim between the quotes *)
+      | [] =>
+          if is_boolean_attribute c a then
+            if oc_compact_boolean c
+            then (if str_eqb (oc_self_closing_style c) s_html then AF_bare name else AF_empty name lq rq)
+            else AF_value name lq [VStr name] rq                  (* name="name" *)
+          else AF_value name lq caret rq                          (* empty value: a tabstop *)
+      end
+  | _ => AF_none                                                  (* no name: nothing *)
+  end.
+
+Theorem attr_out_table : forall (c : oconfig) (a : aattr) (st : fstate),
+  push_attribute c a st = write_form c (attr_out_spec c a) st.
+Proof.
+  intros c a st. unfold push_attribute, attr_out_spec.
+  destruct (aa_name a) as [[|ch nm]|]; try reflexivity.
+  fold (out_name c (ch :: nm) (aa_multiple a)).
+  set (name := out_name c (ch :: nm) (aa_multiple a)).
+  unfold prefixed.
+  assert (Q : forall b, attr_quote c a b = if b then fst (quote_of c a) else snd (quote_of c a)).
+  { intro b. unfold attr_quote, quote_of. destruct (aa_vtype a), b; reflexivity. }
+  rewrite !Q. simpl (if true then _ else _). simpl (if false then _ else _).
+  destruct (quote_of c a) as [lq rq] eqn:EQ. simpl fst. simpl snd.
+  destruct (oc_value_prefix c) as [[|pe ptbl]|].
+  - (* empty prefix table *)
+    destruct (aa_value a) as [[|v0 vs]|]; simpl;
+      destruct (is_boolean_attribute c a); simpl;
+      try destruct (oc_compact_boolean c); simpl;
+      try destruct (str_eqb (oc_self_closing_style c) s_html); reflexivity.
+  - destruct (get_multi_value (ch :: nm) (pe :: ptbl) (aa_multiple a)) as [[|pc pf]|];
+      destruct (aa_value a) as [[|[val|fi fn] [|v1 vs]]|]; simpl;
+      try destruct (oc_jsx c); simpl;
+      destruct (is_boolean_attribute c a); simpl;
+      try destruct (oc_compact_boolean c); simpl;
+      try destruct (str_eqb (oc_self_closing_style c) s_html); reflexivity.
+  - (* no prefix table *)
+    destruct (aa_value a) as [[|v0 vs]|]; simpl;
+      destruct (is_boolean_attribute c a); simpl;
+      try destruct (oc_compact_boolean c); simpl;
+      try destruct (str_eqb (oc_self_closing_style c) s_html); reflexivity.
+Qed.
+
+(* implied attributes (`!name`) without value are dropped, everything else is written *)
+Theorem implied_dropped : forall a,
+  should_output_attribute a = false <->
+  aa_implied a = true /\ aa_vtype a = VRaw /\ (aa_value a = None \/ aa_value a = Some []).
+Proof.
+  intro a. unfold should_output_attribute, vtype_is_raw, truthy_l.
+  destruct (aa_implied a), (aa_vtype a), (aa_value a) as [[|x l]|]; simpl; split; intro H;
+    try discriminate; try reflexivity; try (destruct H as [H1 [H2 [H3|H3]]]; discriminate);
+    try (split; [reflexivity|split; [reflexivity|auto]]).
+Qed.
+
+(* ------------------------------------------------------------------ the characters written *)
+Definition nl_free (s : str) : Prop := forallb (fun ch => negb (is_linebreak ch)) s = true.
+
+Lemma splitlines_aux_nl_free : forall s cur, nl_free s ->
+  splitlines_aux s cur = match rev cur ++ s with [] => [] | l => [l] end.
+Proof.
+  induction s as [|ch s IH]; intros cur H.
+  - simpl. rewrite app_nil_r. destruct cur; simpl; [reflexivity|]. destruct (rev cur ++ [c]) eqn:E; [|reflexivity].
+    apply app_eq_nil in E. destruct E; discriminate.
+  - unfold nl_free in H. simpl in H. apply andb_true_iff in H. destruct H as [H1 H2].
+    apply negb_true_iff in H1. simpl. rewrite H1. rewrite IH by exact H2. simpl.
+    rewrite <- app_assoc. reflexivity.
+Qed.
+
+Lemma os_value_push : forall o s, os_value (os_push o s) = os_value o ++ s.
+Proof.
+  intros. unfold os_value, os_push, os_push_gen. simpl. rewrite map_app, concat_app. simpl.
+  rewrite app_nil_r. reflexivity.
+Qed.
+
+Lemma os_value_push_string : forall f o s, nl_free s -> os_value (os_push_string f o s) = os_value o ++ s.
+Proof.
+  intros f o s H. unfold os_push_string, splitlines. rewrite splitlines_aux_nl_free by exact H. simpl.
+  destruct s; simpl; [rewrite app_nil_r; reflexivity|apply os_value_push].
+Qed.
+
+Lemma os_value_push_field : forall o i ph, os_value (os_push_field o i ph) = os_value o ++ ph.
+Proof.
+  intros. unfold os_value, os_push_field. simpl. rewrite map_app, concat_app. simpl.
+  rewrite app_nil_r. reflexivity.
+Qed.
+
+(* text of a value: strings verbatim, a field shows its placeholder (default output.field) *)
+Definition tok_text (v : vtok) : str := match v with VStr s => s | VField _ nm => nm end.
+Definition toks_nl_free (l : list vtok) : Prop :=
+  Forall (fun v => match v with VStr s => nl_free s | VField _ _ => True end) l.
+
+Lemma push_tokens_value : forall c l st, toks_nl_free l ->
+  os_value (fs_out (push_tokens c l st)) = os_value (fs_out st) ++ concat (map tok_text l).
+Proof.
+  intros c l st H. unfold push_tokens.
+  set (step := fun '(o, lg) t => match t with
+                 | VStr s => (os_push_string (oc_fmt c) o s, lg)
+                 | VField i nm => (os_push_field o (fs_field st + i)%N nm,
+                                   match lg with Some l0 => Some (N.max l0 i) | None => Some i end)
+                 end).
+  assert (G : forall l o lg, toks_nl_free l ->
+              os_value (fst (fold_left step l (o, lg))) = os_value o ++ concat (map tok_text l)).
+  { clear H l. induction l as [|t l IH]; intros o lg H; simpl; [rewrite app_nil_r; reflexivity|].
+    inversion H; subst. destruct t as [s|i nm]; simpl.
+    - rewrite IH by assumption. rewrite os_value_push_string by assumption. rewrite app_assoc. reflexivity.
+    - rewrite IH by assumption. rewrite os_value_push_field. rewrite app_assoc. reflexivity. }
+  specialize (G l (fs_out st) None H).
+  destruct (fold_left step l (fs_out st, None)) as [out largest]. simpl in G. simpl. exact G.
+Qed.
+
+Lemma push_str_value : forall c s st, nl_free s ->
+  os_value (fs_out (push_str c s st)) = os_value (fs_out st) ++ s.
+Proof. intros. unfold push_str. simpl. apply os_value_push_string. assumption. Qed.
+
+(* the characters one form adds to the output *)
+Definition form_text (f : attr_form) : str :=
+  match f with
+  | AF_none => []
+  | AF_bare n => c_space :: n
+  | AF_empty n lq rq => c_space :: n ++ c_eq :: lq ++ rq
+  | AF_value n lq v rq => c_space :: n ++ c_eq :: lq ++ concat (map tok_text v) ++ rq
+  end.
+Definition form_nl_free (f : attr_form) : Prop :=
+  match f with
+  | AF_none => True
+  | AF_bare n => nl_free n
+  | AF_empty n lq rq => nl_free n /\ nl_free lq /\ nl_free rq
+  | AF_value n lq v rq => nl_free n /\ nl_free lq /\ toks_nl_free v /\ nl_free rq
+  end.
+
+Lemma nl_free_cons : forall ch s, is_linebreak ch = false -> nl_free s -> nl_free (ch :: s).
+Proof. intros ch s H1 H2. unfold nl_free in *. simpl. rewrite H1, H2. reflexivity. Qed.
+Lemma nl_free_app : forall a b, nl_free a -> nl_free b -> nl_free (a ++ b).
+Proof. intros a b H1 H2. unfold nl_free in *. rewrite forallb_app, H1, H2. reflexivity. Qed.
+
+(* values appear verbatim between the quotes: the output grows by exactly  name="value"  *)
+Theorem attr_out_text : forall (c : oconfig) (a : aattr) (st : fstate),
+  form_nl_free (attr_out_spec c a) ->
+  os_value (fs_out (push_attribute c a st)) = os_value (fs_out st) ++ form_text (attr_out_spec c a).
+Proof.
+  intros c a st H. rewrite attr_out_table. destruct (attr_out_spec c a) as [|n|n lq rq|n lq v rq]; cbn [write_form form_text form_nl_free] in *.
+  - rewrite app_nil_r. reflexivity.
+  - apply push_str_value. apply nl_free_cons; [reflexivity|exact H].
+  - destruct H as [H1 [H2 H3]].
+    rewrite push_str_value by (apply nl_free_cons; [reflexivity|apply nl_free_app; assumption]).
+    rewrite push_str_value by (apply nl_free_cons; [reflexivity|assumption]).
+    rewrite <- app_assoc. reflexivity.
+  - destruct H as [H1 [H2 [H3 H4]]].
+    rewrite push_str_value by assumption.
+    rewrite push_tokens_value by assumption.
+    rewrite push_str_value by (apply nl_free_cons; [reflexivity|assumption]).
+    rewrite push_str_value by (apply nl_free_cons; [reflexivity|assumption]).
+    rewrite <- ?app_assoc. simpl. rewrite <- ?app_assoc. reflexivity.
+Qed.
